@@ -183,6 +183,7 @@ func RunHarnessShards(r *Report, h HarnessRun, n, par int) {
 			}
 			hh.Env["VERIF_SHARD"] = fmt.Sprint(i)
 			hh.Env["VERIF_SHARDS"] = fmt.Sprint(n)
+			hh.Env["VERIF_PAR"] = fmt.Sprint(par)
 			hh.Tag = fmt.Sprintf("%s[%d/%d]", h.Tag, i, n)
 			RunHarness(r, hh)
 		}(i)
